@@ -10,6 +10,7 @@ pub mod c03;
 pub mod c04;
 pub mod c05;
 pub mod conf;
+pub mod reexport;
 pub mod c08;
 
 /// run a case's history on fresh parsers; returns per call (parser index, buffer, result)
@@ -36,5 +37,5 @@ pub struct PropDef {
 }
 
 pub fn all() -> Vec<PropDef> {
-    vec![c01::DEF, c02::DEF, c03::DEF, c04::DEF, c05::DEF, c08::DEF]
+    vec![c01::DEF, c02::DEF, c03::DEF, c04::DEF, c05::DEF, c08::DEF, reexport::C09, reexport::C10]
 }
